@@ -287,3 +287,132 @@ pub fn bytes_lossy(b: &[u8]) -> String {
     }
     clip(&out, 400)
 }
+
+// --------------------------------------------------------------------------
+// deterministic structural minimiser (used to derive stable signatures)
+
+fn candidates(m: &MV) -> Vec<MV> {
+    let mut out = Vec::new();
+    match m {
+        MV::List(xs, t) => {
+            // children first (largest reduction)
+            for x in xs {
+                out.push(x.clone());
+            }
+            if **t != MV::Null {
+                out.push((**t).clone());
+                out.push(MV::List(xs.clone(), Box::new(MV::Null)));
+            }
+            if xs.len() > 1 {
+                for i in 0..xs.len() {
+                    let mut ys = xs.clone();
+                    ys.remove(i);
+                    out.push(MV::List(ys, t.clone()));
+                }
+            }
+            for (i, x) in xs.iter().enumerate() {
+                for c in candidates(x) {
+                    let mut ys = xs.clone();
+                    ys[i] = c;
+                    out.push(MV::List(ys, t.clone()));
+                }
+            }
+            for c in candidates(t) {
+                if !matches!(c, MV::List(..)) {
+                    out.push(MV::List(xs.clone(), Box::new(c)));
+                }
+            }
+        }
+        MV::Vec(xs) => {
+            for x in xs {
+                out.push(x.clone());
+            }
+            for i in 0..xs.len() {
+                let mut ys = xs.clone();
+                ys.remove(i);
+                out.push(MV::Vec(ys));
+            }
+            for (i, x) in xs.iter().enumerate() {
+                for c in candidates(x) {
+                    let mut ys = xs.clone();
+                    ys[i] = c;
+                    out.push(MV::Vec(ys));
+                }
+            }
+        }
+        MV::Str(s) | MV::Sym(s) | MV::Kw(s) => {
+            let cs: Vec<char> = s.chars().collect();
+            let wrap = |t: String| match m {
+                MV::Str(_) => MV::Str(t),
+                MV::Sym(_) => MV::Sym(t),
+                _ => MV::Kw(t),
+            };
+            if cs.len() > 1 {
+                out.push(wrap(cs[..cs.len() / 2].iter().collect()));
+                out.push(wrap(cs[cs.len() / 2..].iter().collect()));
+            }
+            if cs.len() > 1 && cs.len() <= 24 {
+                for i in 0..cs.len() {
+                    let mut d = cs.clone();
+                    d.remove(i);
+                    out.push(wrap(d.into_iter().collect()));
+                }
+            }
+            for (i, c) in cs.iter().enumerate().take(24) {
+                if *c != 'a' && !c.is_ascii_punctuation() {
+                    let mut d = cs.clone();
+                    d[i] = 'a';
+                    out.push(wrap(d.into_iter().collect()));
+                }
+            }
+        }
+        MV::Bytes(b) => {
+            if b.len() > 1 {
+                out.push(MV::Bytes(b[..b.len() / 2].to_vec()));
+                out.push(MV::Bytes(b[b.len() / 2..].to_vec()));
+            } else if b.len() == 1 {
+                out.push(MV::Bytes(vec![]));
+            }
+        }
+        MV::U(u) if *u > 1 => out.push(MV::U(1)),
+        MV::I(i) if *i < -1 => out.push(MV::I(-1)),
+        _ => {}
+    }
+    out
+}
+
+/// Greedy structural minimisation: the smallest value reachable by the
+/// candidate moves on which `still_fails` holds. Deterministic and bounded.
+pub fn minimise(start: &MV, still_fails: &dyn Fn(&MV) -> bool) -> MV {
+    // phase 1: the smallest sub-tree that fails on its own
+    let mut subs: Vec<&MV> = Vec::new();
+    start.walk(&mut |m| subs.push(m));
+    subs.sort_by_key(|m| m.node_count());
+    let mut cur = start.clone();
+    let total = start.node_count();
+    for (i, m) in subs.iter().enumerate() {
+        if i >= 80 || m.node_count() >= total {
+            break;
+        }
+        if still_fails(m) {
+            cur = (*m).clone();
+            break;
+        }
+    }
+    // phase 2: greedy local moves, bounded
+    let mut budget = 120;
+    'outer: loop {
+        for c in candidates(&cur) {
+            if budget == 0 {
+                break 'outer;
+            }
+            budget -= 1;
+            if c.node_count() <= cur.node_count() && c != cur && still_fails(&c) {
+                cur = c;
+                continue 'outer;
+            }
+        }
+        break;
+    }
+    cur
+}
